@@ -62,6 +62,9 @@ inductive ApiStep : Streams → Streams → Prop
   -- bookkeeping of the model (wake log)
   | wake (s : Streams) (t : List String) : ApiStep s (s.wake t)
   | clearWakes (s : Streams) : ApiStep s { s with wakes := [] }
+  /-- an `assert!` of the connection layer fires / the model gives up -/
+  | panic (s : Streams) (m : String) : ApiStep s (s.panic m)
+  | unsup (s : Streams) (m : String) : ApiStep s (s.unsup m)
 
 theorem ApiStep.evT {s s' : Streams} (h : ApiStep s s') (hA : KeysOK s) (hN : NextLocal s) : EvT s s' := by
   cases h with
@@ -106,6 +109,8 @@ theorem ApiStep.evT {s s' : Streams} (h : ApiStep s s') (hA : KeysOK s) (hN : Ne
   | refClearRecvBuffer _ k => exact .ev (refClearRecvBuffer_ev _ _)
   | wake _ t => exact .ev (wake_ev _ _)
   | clearWakes _ => exact .ev (setMisc_ev _ _ _ _ _ _ ⟨rfl, rfl, rfl, rfl, rfl⟩)
+  | panic _ m => exact .ev (panic_ev _ _)
+  | unsup _ m => exact .ev (unsup_ev _ _)
 
 /-- the stream state of a freshly built connection -/
 inductive InitS : Streams → Prop
